@@ -117,6 +117,9 @@ def query_names(cb):
     qs += ["report." + n for n in _zero_arg_public(Report(cb))]
     qs += ["totals." + n for n in _zero_arg_public(ScanTotals(cb.totals))]
     qs += ["len(tree)", "to_json", "to_json-compact", "summary-text", "summary-markdown", "overview-text", "findings-text"]
+    # every presentation function (round 6): print_report / print_totals / print_findings of both formats, the tables
+    qs += ["report-text", "report-markdown", "report-text-diff-self", "report-markdown-diff-self", "overview-markdown", "findings-markdown",
+           "summary-table", "scan-result-table"]
     return qs
 
 
@@ -151,6 +154,26 @@ def run_query(cb, q, spoil=True):
             format_text.print_totals(con, rep)
         elif q == "findings-text":
             format_text.print_findings(con, rep, True)
+        elif q == "report-text":
+            format_text.print_report(con, rep)
+        elif q == "report-markdown":
+            format_markdown.print_report(con, rep)
+        elif q == "report-text-diff-self":
+            format_text.print_report(con, rep, Report(cb))
+        elif q == "report-markdown-diff-self":
+            format_markdown.print_report(con, rep, Report(cb))
+        elif q == "overview-markdown":
+            format_markdown.print_totals(con, rep)
+        elif q == "findings-markdown":
+            format_markdown.print_findings(rep, con, True)
+        elif q == "summary-table":
+            from codelimit.common.SummaryTable import SummaryTable
+            con.print(SummaryTable(rep))
+        elif q == "scan-result-table":
+            from codelimit.common.ScanResultTable import ScanResultTable
+            con.print(ScanResultTable(ScanTotals(cb.totals)))
+        else:
+            raise ValueError("unknown query " + q)
         r = None
     if spoil and isinstance(r, list):
         r.clear()
